@@ -189,12 +189,20 @@ func totalUseCmap(tab cmap.Table) {
 		}
 		sub.Encode(0)
 	}
+	// records may share one subtable (cmap.Decode allows identical ranges): like a sensible caller,
+	// decode each distinct subtable once per platform class
+	seen := map[string]bool{}
 	for _, k := range keys {
+		id := fmt.Sprintf("%v:%p:%d", k.PlatformID == 1, tab[k], len(tab[k]))
+		if len(tab[k]) == 0 || seen[id] {
+			continue
+		}
+		seen[id] = true
 		if sub, err := tab.Get(k); err == nil && sub != nil {
 			use(sub)
 		}
 		if sub, err := tab.GetNoLang(k.PlatformID, k.EncodingID); err == nil && sub != nil {
-			use(sub)
+			sub.Lookup(0x41)
 		}
 	}
 	if sub, err := tab.GetBest(); err == nil && sub != nil {
@@ -348,6 +356,9 @@ var totalDecoders = map[string]func(f Fields) error{
 		if err != nil {
 			return err
 		}
+		if f["acc"] == "0" { // decoder alone, without the accessors (re-encoding)
+			return nil
+		}
 		totalUseGtab(info)
 		return nil
 	},
@@ -406,6 +417,9 @@ var totalDecoders = map[string]func(f Fields) error{
 		if err != nil {
 			return err
 		}
+		if f["acc"] == "0" {
+			return nil
+		}
 		info.Encode(1)
 		info.Encode(10)
 		return nil
@@ -449,6 +463,20 @@ var totalDecoders = map[string]func(f Fields) error{
 			return err
 		}
 		info.Encode()
+		return nil
+	},
+	"cff-charset": func(f Fields) error {
+		_, _, err := cff.VerifReadCharset(f.Hex("bytes"), totalGlyphCountField(f))
+		return err
+	},
+	"cff-fdselect": func(f Fields) error {
+		fn, err := cff.VerifReadFDSelect(f.Hex("bytes"), totalGlyphCountField(f), 256)
+		if err != nil {
+			return err
+		}
+		for gid := 0; gid < totalGlyphCountField(f); gid++ {
+			fn(glyph.ID(gid))
+		}
 		return nil
 	},
 	"kern": func(f Fields) error {
@@ -507,6 +535,31 @@ func totalAdversary(f Fields) (dec string, b []byte) {
 		return "gsub", totalGsubContextAliased(num("rules", 3), num("glyphs", 4))
 	case "cff-private-size": // §9 #40
 		return "cff", totalCffRebuild(cffSeed(), nil, nil, num("size", 1<<28))
+	case "cmap12-groups": // many groups, each legal; the cap is on the total
+		per := num("per", 4096)
+		return "cmap", totalCmapWith([][]byte{totalCmap12Groups(num("groups", 16), per, num("stride", per))}, []int{0})
+	case "cmap4-segments":
+		return "cmap", totalCmapWith([][]byte{totalCmap4Segments(num("segs", 4), f["full"] == "1")}, []int{0})
+	case "cmap-shared": // `recs` directory records sharing one full format-4 subtable
+		recs := make([]int, num("recs", 4))
+		return "cmap", totalCmapWith([][]byte{totalCmap4Segments(1, false)}, recs)
+	case "coverage2-ranges":
+		return f["dec"], totalCoverage2Ranges(num("ranges", 1), num("per", 65536))
+	case "classdef1-count": // format 1 header claiming `count` glyphs, `have` of them present
+		b := []byte{0, 1, 0, 0}
+		b = append(b, totalBe16b(num("count", 65535))...)
+		for i := 0; i < num("have", 0); i++ {
+			b = append(b, 0, 1)
+		}
+		return "classdef", b
+	case "name-alias":
+		return "name", totalNameAliased(num("recs", 10), num("len", 100))
+	case "post2-names":
+		return "post", totalPost2Names(num("glyphs", 65535))
+	case "cff-name-index":
+		return "cff", totalCffNameIndex(num("count", 65535), num("offsize", 4))
+	case "gsub-lookups-alias":
+		return "gsub", totalGsubLookupsAliased(num("count", 3), num("last", 0xffff))
 	case "t2-nested-gsubrs": // §9 #26
 		gs, g1 := totalT2Bomb(num("levels", 4), num("calls", 12))
 		return "cff", totalCffRebuild(cffSeed(), gs, g1, -1)
@@ -548,8 +601,22 @@ var totalModelGens = map[string]func(c *Ctx, r *Rng, seeds []totalSeed){}
 // generator runs single-threaded and reads it right after c.Case).
 var totalLast totalOut
 
+// totalGlyphCountField: field n of the sub-structure readers (16 when absent, e.g. cross-fed inputs).
+func totalGlyphCountField(f Fields) int {
+	if f["n"] == "" {
+		return 16
+	}
+	return f.Int("n")
+}
+
 func totalInputLen(f Fields) int {
-	return (len(f["bytes"]) + len(f["loca"]) + len(f["hhea"])) / 2
+	n := (len(f["bytes"]) + len(f["loca"]) + len(f["hhea"])) / 2
+	if f["n"] != "" {
+		// sub-structure readers: the glyph count is given by the CharStrings INDEX, which needs at
+		// least one offset byte per glyph
+		n += f.Int("n")
+	}
+	return n
 }
 
 func totalErrClass(err error) string {
@@ -572,11 +639,25 @@ func init() {
 	}
 	// constructed adversaries named by their parameters (the input is rebuilt from the line alone)
 	ops["total.adv"] = func(f Fields) string {
+		switch f["kind"] {
+		case "loca-max": // `entries` loca entries all equal to the (maximal) glyf length: empty glyphs
+			n, g := f.Int("entries"), f.Int("glyf")
+			var loca []byte
+			for i := 0; i < n; i++ {
+				loca = append(loca, totalBe32b(g)...)
+			}
+			loca = append(totalBe32b(0), loca...)
+			return totalD("glyf", Fields{"bytes": hx(make([]byte, g)), "loca": hx(loca), "fmt": "1"})
+		case "hmtx-extreme": // numberOfHMetrics vs table length
+			return totalD("hmtx", Fields{"bytes": hx(make([]byte, f.Int("len"))), "hhea": hx(totalHheaFor(f.Int("hmetrics")))})
+		case "cff-charset", "cff-fdselect": // sub-structure readers through the C13 hooks; n = glyph count
+			return totalD(f["kind"], f)
+		}
 		dec, b := totalAdversary(f)
-		if b == nil {
+		if b == nil || totalDecoders[dec] == nil {
 			return "bad-case"
 		}
-		return totalD(dec, Fields{"bytes": hx(b)})
+		return totalD(dec, Fields{"bytes": hx(b), "acc": f["acc"]})
 	}
 
 	// ---- verdict ops: canonical decoded values for the checked-index Lean models
@@ -1679,6 +1760,176 @@ func totalGenGlyf(r *Rng) (glyfData, loca []byte) {
 	return glyfData, loca
 }
 
+// ---------------------------------------------------------------- families: many maximal records, each legal
+
+// totalCmapWith wraps subtables into a cmap table; `recs` directory records point at subtable
+// number recs[i] (so that several records may share one subtable).
+func totalCmapWith(subs [][]byte, recs []int) []byte {
+	b := []byte{0, 0}
+	b = append(b, totalBe16b(len(recs))...)
+	offs := make([]int, len(subs))
+	o := 4 + 8*len(recs)
+	for i, s := range subs {
+		offs[i] = o
+		o += len(s)
+	}
+	for i, r := range recs {
+		pid, eid := 3, 10
+		if i > 0 {
+			pid, eid = Pick(NewRng(uint64(i)), []int{0, 3}), i // distinct keys
+		}
+		b = append(b, totalBe16b(pid)...)
+		b = append(b, totalBe16b(eid)...)
+		b = append(b, totalBe32b(offs[r])...)
+	}
+	for _, s := range subs {
+		b = append(b, s...)
+	}
+	return b
+}
+
+// totalCmap12Groups: format 12 with `groups` groups of `per` consecutive codes each (group i covers
+// [i*stride, i*stride+per-1], glyph ids from 0): every group is legal by itself; the decoder's cap
+// is on the TOTAL number of mappings (65536).
+func totalCmap12Groups(groups, per, stride int) []byte {
+	l := 16 + 12*groups
+	s := []byte{0, 12, 0, 0}
+	s = append(s, totalBe32b(l)...)
+	s = append(s, 0, 0, 0, 0)
+	s = append(s, totalBe32b(groups)...)
+	for i := 0; i < groups; i++ {
+		s = append(s, totalBe32b(i*stride)...)
+		s = append(s, totalBe32b(i*stride+per-1)...)
+		s = append(s, totalBe32b(0)...)
+	}
+	return s
+}
+
+// totalCmap4Segments: format 4 with `segs` segments; full=true: every segment spans 0..0xFFFE
+// (overlapping: must be refused), full=false: the segments tile 0..0xFFFE (all legal) — plus the
+// final 0xFFFF segment.
+func totalCmap4Segments(segs int, full bool) []byte {
+	n := segs + 1
+	var endc, startc []int
+	for i := 0; i < segs; i++ {
+		if full {
+			startc, endc = append(startc, 0), append(endc, 0xfffe)
+		} else {
+			w := 0xffff / segs
+			lo := i * w
+			hi := lo + w - 1
+			if i == segs-1 {
+				hi = 0xfffe
+			}
+			startc, endc = append(startc, lo), append(endc, hi)
+		}
+	}
+	startc, endc = append(startc, 0xffff), append(endc, 0xffff)
+	l := 16 + 8*n
+	s := []byte{0, 4}
+	s = append(s, totalBe16b(l)...)
+	s = append(s, 0, 0)
+	s = append(s, totalBe16b(2*n)...)
+	s = append(s, 0, 0, 0, 0, 0, 0)
+	for _, e := range endc {
+		s = append(s, totalBe16b(e)...)
+	}
+	s = append(s, 0, 0)
+	for _, e := range startc {
+		s = append(s, totalBe16b(e)...)
+	}
+	for range startc {
+		s = append(s, 0, 1) // idDelta 1
+	}
+	for range startc {
+		s = append(s, 0, 0) // idRangeOffset 0
+	}
+	return s
+}
+
+// totalCoverage2Ranges: coverage format 2 with `ranges` increasing ranges of `per` glyphs.
+func totalCoverage2Ranges(ranges, per int) []byte {
+	b := []byte{0, 2}
+	b = append(b, totalBe16b(ranges)...)
+	for i := 0; i < ranges; i++ {
+		b = append(b, totalBe16b(i*per)...)
+		b = append(b, totalBe16b(i*per+per-1)...)
+		b = append(b, totalBe16b(i*per)...)
+	}
+	return b
+}
+
+// totalNameAliased: `recs` Windows/Unicode/en-US records with nameIDs 0,1,2,… all pointing at the SAME
+// `length` bytes of UTF-16 storage.
+func totalNameAliased(recs, length int) []byte {
+	b := []byte{0, 0}
+	b = append(b, totalBe16b(recs)...)
+	b = append(b, totalBe16b(6+12*recs)...)
+	for i := 0; i < recs; i++ {
+		b = append(b, 0, 3, 0, 1, 0x04, 0x09)
+		b = append(b, totalBe16b(i)...)
+		b = append(b, totalBe16b(length)...)
+		b = append(b, 0, 0)
+	}
+	for i := 0; i < length/2; i++ {
+		b = append(b, 0, 'A')
+	}
+	return b
+}
+
+// totalPost2Names: post version 2 with `glyphs` name indices all = 258 (one custom name of 255 bytes).
+func totalPost2Names(glyphs int) []byte {
+	b := []byte{0, 2, 0, 0}
+	b = append(b, make([]byte, 28)...)
+	b = append(b, totalBe16b(glyphs)...)
+	for i := 0; i < glyphs; i++ {
+		b = append(b, totalBe16b(258)...)
+	}
+	b = append(b, 255)
+	for i := 0; i < 255; i++ {
+		b = append(b, 'n')
+	}
+	return b
+}
+
+// totalHheaFor: a valid hhea table with the given numberOfHMetrics.
+func totalHheaFor(hmetrics int) []byte {
+	h := make([]byte, 36)
+	h[1] = 1
+	copy(h[34:], totalBe16b(hmetrics))
+	return h
+}
+
+// totalCffNameIndex: CFF header followed by a Name INDEX with `count` empty items and the given offSize.
+func totalCffNameIndex(count, offSize int) []byte {
+	b := []byte{1, 0, 4, byte(offSize)}
+	b = append(b, totalBe16b(count)...)
+	b = append(b, byte(offSize))
+	for i := 0; i <= count; i++ {
+		o := totalBe32b(1)
+		b = append(b, o[4-offSize:]...)
+	}
+	return append(b, make([]byte, 16)...)
+}
+
+// totalGsubLookupsAliased: GSUB whose lookup list has `count` offsets all pointing at ONE lookup (type 1,
+// one subtable: single substitution, delta 1, coverage = one range 0..last).
+func totalGsubLookupsAliased(count, last int) []byte {
+	b := []byte{0, 1, 0, 0, 0, 10, 0, 12, 0, 14}
+	b = append(b, 0, 0) // script list
+	b = append(b, 0, 0) // feature list
+	b = append(b, totalBe16b(count)...)
+	for i := 0; i < count; i++ {
+		b = append(b, totalBe16b(2+2*count)...)
+	}
+	b = append(b, 0, 1, 0, 0, 0, 1, 0, 8) // lookup: type 1, one subtable at +8
+	b = append(b, 0, 1, 0, 6, 0, 1)       // Gsub1_1: coverage at +6, delta 1
+	b = append(b, 0, 2, 0, 1, 0, 0)       // coverage format 2, one range
+	b = append(b, totalBe16b(last)...)
+	b = append(b, 0, 0)
+	return b
+}
+
 // ---------------------------------------------------------------- mutations
 
 func totalMutate(r *Rng, b []byte) ([]byte, string) {
@@ -1954,6 +2205,39 @@ func areaTotal(c *Ctx) {
 	adv("kind=gsub-context-alias rules=3 glyphs=4")
 	adv("kind=cff-private-size size=18")
 	adv("kind=t2-nested-gsubrs levels=4 calls=12")
+	// families "many maximal records, each individually legal" (size/count caps and overlap checks)
+	for _, a := range []string{
+		"kind=cmap12-groups groups=16 per=4096",               // exactly 65536 mappings: accepted
+		"kind=cmap12-groups groups=17 per=4096",               // 69632: over the cap
+		"kind=cmap12-groups groups=32 per=65536",              // 32 full groups, 412 bytes
+		"kind=cmap12-groups groups=2000 per=33",               // many small groups
+		"kind=cmap12-groups groups=64 per=1024 stride=1000",   // overlapping groups
+		"kind=cmap4-segments segs=1",                          // one segment 0..0xFFFE
+		"kind=cmap4-segments segs=4 full=1",                   // the same range four times
+		"kind=cmap4-segments segs=2000",                       // 2000 adjacent segments
+		"kind=cmap-shared recs=200",                           // one subtable shared by 200 records
+		"kind=coverage2-ranges dec=coverage ranges=1 per=65536",
+		"kind=coverage2-ranges dec=covset ranges=1 per=65536",
+		"kind=coverage2-ranges dec=coverage ranges=8192 per=8",
+		"kind=coverage2-ranges dec=covset ranges=8192 per=8",
+		"kind=classdef1-count count=65535 have=0",
+		"kind=classdef1-count count=65535 have=65535",
+		"kind=loca-max entries=20000 glyf=65534",
+		"kind=name-alias recs=50 len=2000",
+		"kind=post2-names glyphs=65535",
+		"kind=hmtx-extreme hmetrics=65535 len=262140",
+		"kind=hmtx-extreme hmetrics=1 len=131072",
+		"kind=hmtx-extreme hmetrics=65535 len=4",
+		"kind=cff-name-index count=65535 offsize=4",
+		"kind=cff-name-index count=65535 offsize=1",
+		"kind=cff-charset n=65535 bytes=0200010000fffd", // format 2, one range .. nLeft 65533
+		"kind=cff-charset n=65535 bytes=0100010000ff",   // format 1 stops short
+		"kind=cff-fdselect n=65535 bytes=030001000000ffff",
+		"kind=gsub-lookups-alias count=3 last=65535",
+		"kind=gsub-lookups-alias count=65535 last=65535", // over the 6000 budget
+	} {
+		adv(a)
+	}
 	adv("kind=gdef-alias sets=20")
 	adv("kind=cff-private-size size=268435456")
 	adv("kind=gsub-context-alias rules=6000 glyphs=6000")
